@@ -309,6 +309,12 @@ class Tr(object):
             if f is None:
                 raise Unsupported("operator %s" % op)
             return "(%s %s %s)" % (f, a, b)
+        if k == "struct" and e[1] in self.cfg.get("result_structs", {}):
+            fields = dict(e[2])
+            order = self.cfg["result_structs"][e[1]]
+            if sorted(fields) != sorted(order):
+                raise Unsupported("fields of struct %s" % e[1])
+            return "(" + ", ".join(self.pure(fields[f], env) for f in order) + ")"
         if k == "tuple":
             if not e[1]:
                 return "tt"
@@ -440,6 +446,8 @@ class Tr(object):
     def known_fn(self, recv_ty, name):
         if (recv_ty, name) in self.known:
             return self.known[(recv_ty, name)]
+        if (None, name) in self.known and name in [r for r, _c, _a in self.cfg.get("known_res", [])]:
+            return self.known[(None, name)]
         if recv_ty is None:
             c = [v for (t, n), v in self.known.items() if n == name]
             if len(c) == 1:
@@ -452,6 +460,9 @@ class Tr(object):
             raise Unsupported("call of a computed function")
         segs = f[1]
         name = segs[-1]
+        if "::".join(segs) in self.cfg.get("functions", {}):
+            f = self.cfg["functions"]["::".join(segs)]
+            return "(%s %s)" % (f, " ".join(self.pure(a, env) for a in args)) if args else f
         if segs == ["Some"]:
             return "(Some %s)" % self.pure(args[0], env)
         if segs == ["log_data"]:
@@ -515,6 +526,18 @@ class Tr(object):
             return self.pure(recv, env)
         if name == "available" and not args and recv[0] == "path" and recv[1][0] in env and env[recv[1][0]].kind == "writer":
             return env[recv[1][0]].fields["avail"]
+        if name in self.cfg.get("methods", {}) and not self.known_fn(self.ty_of(recv, env), name):
+            return "(%s %s)" % (self.cfg["methods"][name], " ".join([self.pure(recv, env)] + [self.pure(a, env) for a in args]))
+        if name == "count" and not args:
+            return "(len %s)" % self.iter_base(recv, env)
+        if name == "to_str" and not args:
+            return "(hv_to_str %s)" % self.pure(recv, env)
+        if name == "ok" and not args:
+            return self.pure(recv, env)                    # Result<T, _> -> Option<T>: the modelled std results are options already
+        if name == "filter" and len(args) == 1 and recv[0] == "mcall" and recv[2] in ("ok", "to_str"):
+            return "(opt_filter %s %s)" % (self.closure1(args[0], env), self.pure(recv, env))
+        if name == "and_then" and len(args) == 1:
+            return "(opt_bind %s %s)" % (self.pure(recv, env), self.closure1(args[0], env))
         if name == "is_ascii_digit":
             return "(is_digit %s)" % self.pure(recv, env)
         if name == "is_ascii" and not args:
@@ -555,6 +578,10 @@ class Tr(object):
             return "(map %s %s)" % (self.closure1(recv[3][0], env), self.iter_base(recv[1], env))
         if recv[0] == "mcall" and recv[2] == "zip" and len(recv[3]) == 1:
             return "(combine %s %s)" % (self.iter_base(recv[1], env), self.iter_base(recv[3][0], env))
+        if recv[0] == "mcall" and recv[2] == "filter_map" and len(recv[3]) == 1:
+            return "(opt_filter_map %s %s)" % (self.closure1(recv[3][0], env), self.iter_base(recv[1], env))
+        if recv[0] == "call" and recv[1][0] == "path" and len(recv[1][1]) == 1 and recv[1][1][0] in env and env[recv[1][1][0]].ty == "listfn":
+            return self.pure(recv, env)                    # a closure parameter that returns a list
         raise Unsupported("iterator chain")
 
     # ------------------------------------------------------------------ returning
@@ -621,6 +648,10 @@ class Tr(object):
         if kd == "try":
             inner = e[1]
             # X.map_err(|_| Error::E)? on an option-valued (modelled std) expression
+            if inner[0] == "mcall" and inner[2] == "ok_or" and len(inner[3]) == 1:
+                t = self.fresh()
+                return self.cps(inner[1], env, lambda v, env2: "match %s with Some %s => %s | None => %s end" % (
+                    v, t, k(t, env2), self.err_of(inner[3][0])))
             if inner[0] == "mcall" and inner[2] == "map_err":
                 errv = inner[3][0]
                 if errv[0] != "closure":
@@ -1536,6 +1567,19 @@ FLOWFUNCS = [
                  ("call_result", "val", "res (option (N * response))", "res")],
          known=["resp_status", "resp_last_location", "resp_has_close"],
          rust_ret="Result<(usize, Option<Response<()>>), Error>"),
+    # src/client/amended.rs: the request analysis (what makes a request invalid, and the framing of its body); the two header accessors
+    # are function parameters, version and method are values
+    dict(coq="gen_analyze", file="src/client/amended.rs", impl=r"impl<Body>\s+AmendedRequest<Body>", rust="analyze",
+         subst=[(r"self\.request\.version\(\)", "version"), (r"self\.method\(\)\.clone\(\)", "method"), (r"self\.method\(\)", "method"),
+                (r"self\s*\.headers_get_all\(", "headers_get_all("), (r"self\s*\.headers_get\(", "headers_get(")],
+         params=[("version", "val", "version", None), ("method", "val", "Request.method", "Method"),
+                 ("headers_get_all", "val", "bytes -> list bytes", "listfn"), ("headers_get", "val", "bytes -> option bytes", None),
+                 ("wanted_mode", "val", "writer", None), ("skip_method_body_check", "val", "bool", None)],
+         known_res=[("verify_version", "gen_verify_version", 2)],
+         methods={"has_body": "has_body", "need_request_body": "gen_need_request_body"},
+         functions={"BodyWriter::new_chunked": "new_chunked", "BodyWriter::new_sized": "new_sized", "compare_lowercase_ascii": "gen_compare_lowercase_ascii"},
+         result_structs={"RequestInfo": ["body_mode", "req_host_header", "req_body_header"]},
+         rust_ret="Result<RequestInfo, Error>"),
 ]
 
 
@@ -1553,6 +1597,8 @@ def translate_custom(text, cfg):
     ps = [(n, k, t) for n, k, t, _ in cfg["params"]]
     info = FnInfo(cfg["coq"], ps, "res", rust_ret=cfg["rust_ret"])
     known = dict(((None, n), FnInfo(n, [("r", "val", "")], "plain")) for n in cfg.get("known", []))
+    for rust, coq, arity in cfg.get("known_res", []):
+        known[(None, rust)] = FnInfo(coq, [("a%d" % i, "val", "") for i in range(arity)], "res")
     tr = Tr(cfg, {}, known)
     tr.info = info
     tr.types = {}
